@@ -321,8 +321,10 @@ class Body:
 
 class Crate:
     def __init__(self, path):
+        # items of the pinned tree that were renamed or moved get their pinned names back (lib/rename.py)
+        from lib import rename as _rn
         with open(path) as f:
-            self.raw = json.load(f)
+            self.raw, self.rename_report = _rn.normalize(f.read())
         self.kind = self.raw["kind"]
         self.fninfo = {f["path"]: f for f in self.raw["fns"]}
         # raw_bodies: the functions as written; bodies: the view the rules analyse, in which calls of local functions
